@@ -76,6 +76,8 @@ pub enum HB {
     Refuse,
     AcceptClose,
     CloseMid,
+    /// 200 with the full Content-Length, the body cut after n bytes by the peer
+    CloseAt(u16),
     Stall,
 }
 
@@ -126,7 +128,7 @@ fn hclass(b: HB) -> Class {
         HB::Valid => Class::Good,
         HB::S500 | HB::S502 | HB::S503 | HB::S429 | HB::S429RetryAfter | HB::S429RetryAfterLong | HB::Refuse | HB::Stall => Class::Transient,
         HB::S404 | HB::S403 => Class::Definitive,
-        HB::Malformed | HB::AcceptClose | HB::CloseMid => Class::Unclassified,
+        HB::Malformed | HB::AcceptClose | HB::CloseMid | HB::CloseAt(_) => Class::Unclassified,
     }
 }
 
@@ -155,6 +157,7 @@ fn http_behaviour(b: HB, tag: u32) -> HttpBehaviour {
         HB::Refuse => HttpBehaviour::Refuse,
         HB::AcceptClose => HttpBehaviour::AcceptClose,
         HB::CloseMid => HttpBehaviour::CloseMidBody(bpsv(tag)),
+        HB::CloseAt(n) => HttpBehaviour::CloseAfter(bpsv(tag), n as usize),
         HB::Stall => HttpBehaviour::Stall,
     }
 }
@@ -603,6 +606,14 @@ fn scenarios(tier: Tier) -> Vec<Scenario> {
             out.push(Scenario { https: None, http: None, tcp: TB::CloseAt(n as u16), cut: None, cut2: None, ttl_split: false, endpoint: "v1/summary", script: "qq", ttl_zero: false, disk_cache: disk });
         }
     }
+    // (8) the same on a TACT endpoint: 200 with the full Content-Length and the body cut by the peer
+    // after every proper prefix — a failure of that endpoint, never a shorter table, never cached
+    for n in 0..bpsv(100).len() {
+        out.push(Scenario { https: Some(HB::CloseAt(n as u16)), http: Some(HB::Valid), tcp: TB::ValidV1, cut: None, cut2: None, ttl_split: false, endpoint: "v1/products/wow/versions", script: "qq", ttl_zero: false, disk_cache: false });
+        if tier == Tier::Thorough {
+            out.push(Scenario { https: Some(HB::S503), http: Some(HB::CloseAt(n as u16)), tcp: TB::ValidV1, cut: None, cut2: None, ttl_split: false, endpoint: "v1/products/wow/cdns", script: "qq", ttl_zero: false, disk_cache: true });
+        }
+    }
     for (t, data) in seg {
         let len = data.len();
         for cut in 1..len {
@@ -635,7 +646,7 @@ fn scenarios(tier: Tier) -> Vec<Scenario> {
 
 pub fn run(tier: Tier, seed: u64) -> i32 {
     let rep = Report::new("C13", tier, seed, Level::ModelChecking);
-    rep.set_rule("scenario = assignment of a behaviour to each of the three loopback endpoints × endpoint class × query script × TTL class × cache kind; (1) the full product of behaviours for versions/qq/1h/disk, (2) a reduced behaviour set across all other dimensions, (3) endpoint URLs present/empty, (4) every single cut position of every valid TCP response (V1 CRLF, V1 LF, V2, and V2 with an empty line after each of its lines), (5) every pair (first cut anywhere, second cut at every later line end; thorough: later positions on a grid of 3), (6) query scripts around the expiry of a 2 s TTL in real time (same client, new client adopting the stored answer at once / mid-TTL / after expiry; own TTL class short with the others 1 h, or all short), judged only where the measured times leave no doubt, (7) the connection closed by the peer after every proper prefix of the V1 response (checksum line last): an error, or the complete document once only the checksum line is cut, and nothing cached after an error; states = scenarios, transitions = queries issued, traces = scenarios executed on the real RibbitTactClient");
+    rep.set_rule("scenario = assignment of a behaviour to each of the three loopback endpoints × endpoint class × query script × TTL class × cache kind; (1) the full product of behaviours for versions/qq/1h/disk, (2) a reduced behaviour set across all other dimensions, (3) endpoint URLs present/empty, (4) every single cut position of every valid TCP response (V1 CRLF, V1 LF, V2, and V2 with an empty line after each of its lines), (5) every pair (first cut anywhere, second cut at every later line end; thorough: later positions on a grid of 3), (6) query scripts around the expiry of a 2 s TTL in real time (same client, new client adopting the stored answer at once / mid-TTL / after expiry; own TTL class short with the others 1 h, or all short), judged only where the measured times leave no doubt, (7) the connection closed by the peer after every proper prefix of the V1 response (checksum line last): an error, or the complete document once only the checksum line is cut, and nothing cached after an error, (8) a TACT endpoint answering 200 with the full Content-Length and the body cut by the peer after every proper prefix; states = scenarios, transitions = queries issued, traces = scenarios executed on the real RibbitTactClient");
     rep.assume("loopback TCP, plain HTTP for the 'HTTPS' endpoint (as the repository's own tests do); real time; a refused connection is produced by a bound, non-listening socket");
     rep.assume("classification: 5xx/429/refused/stall = transient, 4xx other than 429 = definitive; 200+malformed body, accept-and-close, close-mid-body are 'failed' but not judged on stop-vs-continue (DESIGN §6)");
     rep.assume("a V2 (plain BPSV) response closed at a row boundary is indistinguishable from a complete shorter response for any client (no length, no checksum): close-at-every-position is enumerated for the V1 response only, whose checksum line the statement of C07 names");
@@ -707,6 +718,9 @@ pub fn run(tier: Tier, seed: u64) -> i32 {
 pub fn replay(w: &serde_json::Value) -> i32 {
     let wit = &w["witness"];
     let parse_hb = |s: &str| -> Option<HB> {
+        if let Some(n) = s.strip_prefix("Some(CloseAt(").and_then(|r| r.strip_suffix("))")).and_then(|n| n.parse::<u16>().ok()) {
+            return Some(HB::CloseAt(n));
+        }
         [HB::Valid, HB::S500, HB::S502, HB::S503, HB::S429, HB::S429RetryAfter, HB::S429RetryAfterLong, HB::S404, HB::S403, HB::Malformed, HB::Refuse, HB::AcceptClose, HB::CloseMid, HB::Stall].into_iter().find(|b| format!("Some({b:?})") == s)
     };
     let parse_tb = |s: &str| -> TB {
